@@ -30,6 +30,7 @@ import (
 	"github.com/hyperledger/aries-framework-go/component/models/presexch"
 	utiltime "github.com/hyperledger/aries-framework-go/component/models/util/time"
 	"github.com/hyperledger/aries-framework-go/component/models/verifiable"
+	"github.com/hyperledger/aries-framework-go/pkg/wallet"
 )
 
 var c20Loader ld.DocumentLoader
@@ -212,42 +213,82 @@ func c20Run(input string) string {
 		}
 		return "err " + strings.SplitN(err.Error(), ":", 2)[0] + "|-"
 	}
-	// descriptor map of the created presentation
-	sub, ok := vp.CustomFields["presentation_submission"].(*presexch.PresentationSubmission)
+	// descriptor map of a created presentation
+	render := func(vp *verifiable.Presentation) (string, bool) {
+		sub, ok := vp.CustomFields["presentation_submission"].(*presexch.PresentationSubmission)
+		if !ok {
+			return "", false
+		}
+		var pairs []string
+		for _, m := range sub.DescriptorMap {
+			// path "$.verifiableCredential[i]" selects the i-th credential of the presentation
+			idx := -1
+			p := m.Path
+			if m.PathNested != nil {
+				p = m.PathNested.Path
+			}
+			if i := strings.Index(p, "["); i >= 0 {
+				idx, _ = strconv.Atoi(strings.TrimSuffix(p[i+1:], "]"))
+			}
+			cid := "?"
+			shown := "?"
+			if idx >= 0 && idx < len(vp.Credentials()) {
+				if vc, ok := vp.Credentials()[idx].(*verifiable.Credential); ok {
+					cid = strings.TrimPrefix(vc.ID, "urn:cred:")
+					// tmp ids of rewritten (predicate / limited) credentials keep the original id as prefix or not at all
+					if i := strings.Index(vc.ID, "urn:cred:"); i < 0 {
+						cid = "tmp"
+					}
+					if v, has := vc.CustomFields[descAttr[m.ID]]; has {
+						shown = fmt.Sprint(v)
+					} else {
+						shown = "absent"
+					}
+				}
+			}
+			pairs = append(pairs, m.ID+":"+cid+"["+shown+"]")
+		}
+		sort.Strings(pairs)
+		return "vp " + strings.Join(pairs, ","), true
+	}
+	holder, ok := render(vp)
 	if !ok {
 		return "err no-submission|-"
 	}
-	var pairs []string
-	for _, m := range sub.DescriptorMap {
-		// path "$.verifiableCredential[i]" selects the i-th credential of the presentation
-		idx := -1
-		p := m.Path
-		if m.PathNested != nil {
-			p = m.PathNested.Path
+	// the wallet's query engine answers a LIST of definitions with one presentation each: asked for another definition
+	// first (one of the descriptors, picked from a group) and then for this one, its second answer is what CreateVP
+	// gives for this definition alone
+	if len(descs) > 0 && !v2 {
+		first := map[string]interface{}{"id": "other-definition", "input_descriptors": []interface{}{}}
+		var fd []interface{}
+		for _, d := range descs {
+			c := map[string]interface{}{}
+			for k, v := range d.(map[string]interface{}) {
+				c[k] = v
+			}
+			c["group"] = []string{"Z"}
+			fd = append(fd, c)
 		}
-		if i := strings.Index(p, "["); i >= 0 {
-			idx, _ = strconv.Atoi(strings.TrimSuffix(p[i+1:], "]"))
-		}
-		cid := "?"
-		shown := "?"
-		if idx >= 0 && idx < len(vp.Credentials()) {
-			if vc, ok := vp.Credentials()[idx].(*verifiable.Credential); ok {
-				cid = strings.TrimPrefix(vc.ID, "urn:cred:")
-				// tmp ids of rewritten (predicate / limited) credentials keep the original id as prefix or not at all
-				if i := strings.Index(vc.ID, "urn:cred:"); i < 0 {
-					cid = "tmp"
-				}
-				if v, has := vc.CustomFields[descAttr[m.ID]]; has {
-					shown = fmt.Sprint(v)
-				} else {
-					shown = "absent"
-				}
+		first["input_descriptors"] = fd
+		first["submission_requirements"] = []interface{}{map[string]interface{}{"rule": "pick", "count": 1, "from": "Z"}}
+		fb, _ := json.Marshal(first)
+		rawCreds := map[string]json.RawMessage{}
+		for _, c := range creds {
+			if b, e := c.MarshalJSON(); e == nil {
+				rawCreds[c.ID] = b
 			}
 		}
-		pairs = append(pairs, m.ID+":"+cid+"["+shown+"]")
+		res, qerr := wallet.NewQuery(nil, c20Loader, &wallet.QueryParams{Type: "PresentationExchange",
+			Query: []json.RawMessage{fb, db}}).PerformQuery(rawCreds)
+		if os.Getenv("VERIF_TRACE") != "" {
+			fmt.Fprintln(os.Stderr, "walletquery:", qerr, len(res))
+		}
+		if qerr == nil && len(res) == 2 {
+			if h2, ok2 := render(res[1]); !ok2 || h2 != holder {
+				return "walletquery-differs: " + h2 + " instead of " + holder + "|-"
+			}
+		}
 	}
-	sort.Strings(pairs)
-	holder := "vp " + strings.Join(pairs, ",")
 	// verifier side, same definition; the presentation travels as JSON
 	vpBytes, err := vp.MarshalJSON()
 	if err != nil {
